@@ -381,8 +381,12 @@ func (pd *perRawBitData) appendInteger(value int64, extensive bool, lowerBoundPt
 		y := value >> 63
 		unsignedValue = uint64(((value ^ y) - y)) - 1
 	}
-	if valueRange <= 0 {
+	if valueRange < 0 {
 		unsignedValue >>= 7
+	} else if valueRange == 0 {
+		// semi-constrained: the offset from the lower bound as a non-negative-binary-integer
+		// in the minimum number of octets, without a sign bit (X.691 10.7)
+		unsignedValue = uint64(value-lb) >> 8
 	} else if valueRange <= 65536 {
 		return pd.appendConstraintValue(valueRange, uint64(value-lb))
 	} else {
